@@ -325,8 +325,38 @@ def check_file(ctx, df, sample_seeds):
         evaluate(ctx, buf, shape, p0, types, 'permuted-vs-original')
 
 
+def add_038_sections(df, seeds):
+    """DEX 038+ files may carry call_site_id and method_handle sections (two more map entries, placed after class_defs).
+    Derived deterministically from the drawn seeds: none, one of the two, or both."""
+    if df.version < '038' or not df.classes:
+        return
+    sel = seeds[0] % 5 if seeds else 0
+    if sel == 0:
+        return
+    c = df.classes[0]
+    ms = c.dmethods + c.vmethods
+    if ms:
+        ref = ('m', c.name, ms[0].name, ms[0].ret, ms[0].params)
+        kind = 4
+    elif c.sfields:
+        ref = ('f', c.name, c.sfields[0].name, c.sfields[0].type)
+        kind = 1
+    else:
+        return
+    if sel in (1, 3, 4):
+        df.method_handles = [(kind, ref)] * (1 + seeds[0] % 2)
+    if sel in (2, 3, 4):
+        first = g.EV('method_handle', 0) if df.method_handles else g.EV('int', 0)
+        df.call_sites = [[first, g.EV('string', 'bsm'), g.EV('method_type', ('V', ()))]] * (1 + (seeds[0] >> 3) % 2)
+
+
 def check_drawn(ctx, v):
     df, seeds = v
+    add_038_sections(df, seeds)
+    if df.method_handles and df.call_sites:
+        ctx.label('sections:call-site+method-handle')
+    elif df.method_handles or df.call_sites:
+        ctx.label('sections:call-site-or-method-handle')
     check_file(ctx, df, seeds)
 
 
@@ -357,7 +387,11 @@ def medium_models():
           static_values=[EV('int', -2), EV('string', 'h\x00i\ud800')],
           annotations=[A('LAnn;', [('v', EV('string', 'x'))]), A('Ljava/lang/Deprecated;', [], 0)]),
         C('La/I;', 0x601, 'Ljava/lang/Object;', [], None, vmethods=[M('run', 'V', (), 0x401)])],
-        extra_refs=[('m', 'La/B;', 'other', 'V', ('I', 'J')), ('f', 'La/B;', 'q', 'Z')])]
+        extra_refs=[('m', 'La/B;', 'other', 'V', ('I', 'J')), ('f', 'La/B;', 'q', 'Z')]),
+        g.DexFile([C('La/D;', 0x1, 'Ljava/lang/Object;', [], None, sfields=[F('s', 'I', 0x9)],
+                     dmethods=[M('bsm', 'V', (), 0x9, Code(1, 0, 0, bytes.fromhex('0e00')))], static_values=[EV('int', 9)])],
+                  version='038', method_handles=[(4, ('m', 'La/D;', 'bsm', 'V', ())), (0, ('f', 'La/D;', 's', 'I'))],
+                  call_sites=[[EV('method_handle', 0), EV('string', 'n'), EV('method_type', ('V', ()))]])]
 
 
 # ------------------------------------------------------------------------------------------ harness glue
@@ -377,7 +411,7 @@ def run_shard(ctx, shard):
             check_file(ctx, df, [7 ** k for k in range(3, 40)])
         return
     models = ds.dex_models(max_classes=4, max_fields=3, max_methods=3, static_values=True, annotations=True, tries=True,
-                           versions=('035', '039'))
+                           versions=('035', '038', '039'))
     strat = st.tuples(models, st.lists(st.binary(min_size=7, max_size=7).map(lambda b: int.from_bytes(b, 'little')),
                                         min_size=4, max_size=4))
     n = 40 if ctx.tier == 'quick' else 300
